@@ -91,10 +91,13 @@ def judge(case, res, prefix):
             if len(fr) != n:
                 out.append(("C03|decoded-count|%s" % gop_sig(case), "stream decodes to %d pictures, %d submitted" % (len(fr), n)))
             elif int(case.get("tag", 0)):
-                got = [common.read_tag(f) for f in fr]
+                # a tag is evidence of order only where the decoded picture renders it cleanly: the property asks for
+                # order, not fidelity (a picture coded as one flat block reads as an arbitrary tag)
+                got = [common.read_tag(f, strict=True) for f in fr]
                 want = [k % 64 for k in range(n)]
-                if got != want:
-                    bad = [k for k in range(n) if got[k] != want[k]]
+                bad = [k for k in range(n) if got[k] is not None and got[k] != want[k]]
+                out.append(("tags", (sum(1 for g in got if g is not None), sum(1 for g in got if g is None))))
+                if bad:
                     out.append(("C03|decoded-order|%s" % gop_sig(case), "decoded picture %d carries tag %s, expected %d"
                                 % (bad[0], got[bad[0]], want[bad[0]])))
             st2, info2 = enc.ref_decode(prefix + ".ivf", "dav1d", "-")
@@ -179,20 +182,28 @@ def run(chk, tier, replay=None):
         prefix = os.path.join(chk.dir, "c%04d" % i)
         to = 25 if common.known_hang_region(case) else None
         res = enc.run_case("plain", case, prefix, timeout=to)
-        v = judge(case, res, prefix)
+        tagc = [0, 0]
+
+        def strip(v):
+            for t in [x for x in v if x[0] == "tags"]:
+                tagc[0], tagc[1] = t[1]
+            return [x for x in v if x[0] != "tags"]
+        v = strip(judge(case, res, prefix))
         if res.timed_out and not common.known_hang_region(case):
             enc.cleanup(prefix)
             res = enc.run_case("plain", case, prefix)  # a hang must reproduce
-            v2 = judge(case, res, prefix)
+            v2 = strip(judge(case, res, prefix))
             if not res.timed_out:
                 v = [(None, "watchdog fired once, second run finished")] + v2
         if not v:
             enc.cleanup(prefix)
-        return case, res, v
+        return case, res, v, tagc
 
     results = core.pmap(one, list(enumerate(cases)))
-    for case, res, v in results:
+    for case, res, v, tagc in results:
         chk.count()
+        chk.bump("decoded_tags_read", tagc[0])
+        chk.bump("decoded_tags_unreadable", tagc[1])
         if v and v[0][0] == "rejected-config":
             chk.bump("rejected_config_draws")
             continue
